@@ -260,9 +260,22 @@ def rule_l3(ctx):
     if len(region) == len(wb.reachable([0])):
         raise AnchorMissing("L3: cannot isolate the Struct arm of as_bits")
     rec = [b for b in region if wb.term(b)["k"] == "call" and mir.callee(wb.term(b)) == AS_BITS]
-    if not rec:
-        raise AnchorMissing("L3: the Struct arm of as_bits does not encode its fields recursively")
     ok_writer = False
+    # `struct_def.fields.iter().flat_map(|(name, _)| { .. f.as_bits(..) }).collect()`: the loop written with an adaptor
+    adaptors = []
+    for b in sorted(region):
+        t = wb.term(b)
+        if t["k"] == "call" and (t["func"].get("declared") or "") in ("std::iter::Iterator::flat_map", "std::iter::Iterator::map", "std::iter::Iterator::for_each") and \
+                len(t["args"]) == 2 and t["args"][1]["k"] in ("copy", "move"):
+            for (r, p) in wb.trace(t["args"][1]["place"], through={}):
+                if r[0] == "agg":
+                    cid = wb.blocks[r[1]]["stmts"][r[2]]["rv"].get("closure")
+                    if cid and ctx.has_fn(cid) and any(mir.callee(ct) == AS_BITS for _, ct in ctx.body(cid).calls()):
+                        adaptors.append(b)
+                        if any(rr == ("arg", 2) and "struct_defs" in pp for (rr, pp) in wb.deep_sources(t["args"][0], 6)):
+                            ok_writer = True
+    if not rec and not adaptors:
+        raise AnchorMissing("L3: the Struct arm of as_bits does not encode its fields recursively")
     for rb in rec:
         loops = [lp for lp in wb.loops() if rb in lp["body"]]
         for lp in loops:
@@ -650,12 +663,15 @@ def rule_l7(ctx):
     n = 0
     reach = ctx.cg.reach_set({FROM_BITS})
     helpers = set()
+    per_arm = {}
+    arm_helpers = {}
     for variant in ("Array", "ArrayConst", "ArrayConstExpr"):
         succ = body.pruned_succ({(("arg", ty_arg), ()): variant})
         region = body.reachable([0], succ=succ)
         if len(region) == len(body.reachable([0])):
             raise AnchorMissing("L7: cannot isolate the %s arm of from_unwrapped_bits" % variant)
-        n += _l7_loops(ctx, res, body, region, variant, ty_arg, bits_arg, [])
+        per_arm[variant] = _l7_loops(ctx, res, body, region, variant, ty_arg, bits_arg, [])
+        n += per_arm[variant]
         # the arm may hand the elements to a helper of literal.rs that decodes them (and calls back)
         for b in region:
             t = body.term(b)
@@ -663,6 +679,8 @@ def rule_l7(ctx):
                 for c in mir.callee_names(t):
                     if c != FROM_BITS and c in reach and c in ctx.fns and "mir" in ctx.fns[c] and ctx.fns[c]["sp"][0].endswith("literal.rs"):
                         helpers.add(c)
+                        arm_helpers.setdefault(variant, set()).add(c)
+    helper_loops = {}
     for h in sorted(helpers):
         hb = ctx.body(h)
         hty = hbits = None
@@ -677,9 +695,12 @@ def rule_l7(ctx):
                 sizes.append(l)
         if hbits is None:
             continue
-        n += _l7_loops(ctx, res, hb, hb.reachable([0]), "helper %s" % mir.last_seg(h), hty if hty is not None else -1, hbits, sizes)
-    if (n < 3) and not res.findings:
-        raise AnchorMissing("L7: expected element loops in the three array arms (or in a helper they call), found %d" % n)
+        helper_loops[h] = _l7_loops(ctx, res, hb, hb.reachable([0]), "helper %s" % mir.last_seg(h), hty if hty is not None else -1, hbits, sizes)
+        n += helper_loops[h]
+    # every arm has its element loop, of its own or in a helper it calls (two arms may share one helper)
+    bare = [v for v in per_arm if per_arm[v] + sum(helper_loops.get(h, 0) for h in arm_helpers.get(v, ())) < 1]
+    if bare and not res.findings:
+        raise AnchorMissing("L7: expected an element loop in each of the three array arms (or in a helper it calls), none found for %s" % ", ".join(bare))
     return res
 
 
